@@ -1447,7 +1447,9 @@ def r78(ctx: Ctx) -> RuleReport:
             if isinstance(loop, ast.For) and not (isinstance(loop.iter, ast.Call) and norm(loop.iter.func) in ('count', 'itertools.count')):
                 continue
             key = f'{fi.module.name}:{fi.qualname}: search for a {cand} not in {taken}'
-            counters = {n.target.id for n in ast.walk(loop) if isinstance(n, ast.AugAssign) and isinstance(n.target, ast.Name)}
+            counters = {n.target.id for n in ast.walk(loop) if isinstance(n, ast.AugAssign) and isinstance(n.target, ast.Name)
+                        and isinstance(n.op, (ast.Add, ast.Sub)) and not (try_fold(n.value)[0] and try_fold(n.value)[1] == 0)}
+            stuck = [n for n in ast.walk(loop) if isinstance(n, ast.AugAssign) and isinstance(n.target, ast.Name) and try_fold(n.value) == (True, 0)]
             if isinstance(loop, ast.For):
                 counters |= {x.id for x in ast.walk(loop.target) if isinstance(x, ast.Name)}
             verdicts = []
@@ -1474,7 +1476,10 @@ def r78(ctx: Ctx) -> RuleReport:
                     verdicts.append('detected' if detected else 'unbounded')
                 else:
                     verdicts.append('unknown')
-            if 'unbounded' in verdicts:
+            if stuck and 'unknown' in verdicts:
+                rep.violation(key, fi.loc(stuck[0]), f'`{norm(stuck[0])}` never changes the counter the candidate is made from: once the first candidate `{norm(gens[0].value)[:30]}` is taken, '
+                              f'every further candidate is the same and the search never ends')
+            elif 'unbounded' in verdicts:
                 rep.violation(key, fi.loc(loop), f'the candidates are produced by `{norm(gens[0].value)[:60]}` from a format string supplied by the caller: if it does not use '
                               f'the counter (a constant such as "x", or "{{prefix}}" for two concepts with the same initial) every candidate is the same and the '
                               f'loop never ends; nothing in the loop detects a repeated candidate')
